@@ -100,13 +100,13 @@ proof fn lemma_tbl_store GEN(tp: Map<(usize, usize), u32>, TBL, i: int, j: int, 
     }
 }
 /// one step of the walk at cell (i, j) = (new_idx, old_idx): the neighbour the code moves to keeps the remaining lcs
-/// (tie-break of the code: not equal and cell(i, j + 1) >= cell(i + 1, j) => delete, else insert)
+/// (the code: not equal and cell(i, j + 1) >= cell(i + 1, j) => delete, else insert; on a tie either move is optimal)
 proof fn lemma_walk GEN(TBL, i: int, j: int) WH
   requires 0 <= i < ne - ns, 0 <= j < oe - os, tbl_lcs(t, old, os, oe, new, ns, ne)
   ensures
       eqv(old, os + j, new, ns + i) ==> lcs_len(old, os + j, oe, new, ns + i, ne) == 1 + lcs_len(old, os + j + 1, oe, new, ns + i + 1, ne),
       !eqv(old, os + j, new, ns + i) && tbl_val(t, i, j + 1) >= tbl_val(t, i + 1, j) ==> lcs_len(old, os + j, oe, new, ns + i, ne) == lcs_len(old, os + j + 1, oe, new, ns + i, ne),
-      !eqv(old, os + j, new, ns + i) && tbl_val(t, i, j + 1) < tbl_val(t, i + 1, j) ==> lcs_len(old, os + j, oe, new, ns + i, ne) == lcs_len(old, os + j, oe, new, ns + i + 1, ne),
+      !eqv(old, os + j, new, ns + i) && tbl_val(t, i, j + 1) <= tbl_val(t, i + 1, j) ==> lcs_len(old, os + j, oe, new, ns + i, ne) == lcs_len(old, os + j, oe, new, ns + i + 1, ne),
 {
     assert(cell_ok(t, old, os, oe, new, ns, ne, i, j + 1));
     assert(cell_ok(t, old, os, oe, new, ns, ne, i + 1, j));
@@ -169,9 +169,11 @@ proof { assert(tbl_lcs(table@, ARGS)); }
 '''.replace('ARGS', ARGS), start=mt)
 
 dd = o.find('pub fn diff_deadline<Old, New, D>(')
+# the body query (5 hook calls + 4 exits on the main path) needs 20-35 M rlimit units depending on the solver seed: the default (30 M) is too tight
+o.lines[dd:dd] = ghost('#[verifier::rlimit(40)]')
+dd = o.find('pub fn diff_deadline<Old, New, D>(')
 o.before('{', contract('alg_lvl(deadline)', 'deadline is None'), start=dd)
 o.after('{', '''
-hide(seg_eqs); hide(lcs_len);   // C03 bookkeeping goes through lemmas only (keeps the queries small)
 broadcast use {axiom_pure_index, axiom_pure_eq};
 let ghost rel = rel_of(old, new); let ghost lvl = alg_lvl(deadline);
 let ghost o0 = old_range.start as int; let ghost n0 = new_range.start as int;
@@ -209,6 +211,8 @@ proof { assert(oc == oe0 && nc == ne0); assert(seg(old, new, lvl, s, o0, n0, oe0
 ''' % why, ind)
     return i + 3
 
+# the inner box (prefix and suffix stripped) that make_table has tabulated
+IB = 'old, o0 + common_prefix_len, oe0 - common_suffix_len, new, n0 + common_prefix_len, ne0 - common_suffix_len'
 p = call(o, dd, 'd.delete(old_range.start, old_range.len(), new_range.start)?;',
      'Ev::Delete(old_range.start, (old_range.end - old_range.start) as usize, new_range.start)', 'oc = oc + (old_range.end - old_range.start);')
 p = finish(o, p, why='lemma_lcs_empty(old, o0, oe0, new, n0, ne0);')
@@ -220,8 +224,6 @@ p = call(o, p, 'd.equal(old_range.start, new_range.start, old_range.len())?;',
 p = finish(o, p, why='lemma_lcs_prefix(old, o0, oe0, new, n0, ne0, oe0 - o0); lemma_lcs_empty(old, oe0, oe0, new, ne0, ne0);')
 p = call(o, p, 'd.equal(old_range.start, new_range.start, common_prefix_len)?;',
      'Ev::Equal(old_range.start, new_range.start, common_prefix_len)', 'oc = oc + common_prefix_len; nc = nc + common_prefix_len;')
-# the inner box (prefix and suffix stripped) that make_table has tabulated
-IB = 'old, o0 + common_prefix_len, oe0 - common_suffix_len, new, n0 + common_prefix_len, ne0 - common_suffix_len'
 INV = '''
     invariant
         alg_inv(*d, d0, t0, s, rel, lvl, rs0, o0, n0, oc, nc), (*d).fobs() == d0.fobs(), (*d).config() == d0.config(),
@@ -248,8 +250,9 @@ p = call(o, w, 'd.equal(old_orig_idx, new_orig_idx, 1)?;', 'Ev::Equal(old_orig_i
 p = call(o, p, 'd.delete(old_orig_idx, 1, new_orig_idx)?;', 'Ev::Delete(old_orig_idx, 1, new_orig_idx)', 'oc = oc + 1;')
 p = call(o, p, 'd.insert(old_orig_idx, new_orig_idx, 1)?;', 'Ev::Insert(old_orig_idx, new_orig_idx, 1)', 'nc = nc + 1;')
 o.before('if old_idx < old_len {', '''
-proof { if opt { lemma_lcs_empty(old, oc, oe0 - common_suffix_len, new, nc, ne0 - common_suffix_len); } assert(opt ==> eqs == common_prefix_len + lcs_len(IB)); }   // the walk has used up one side (no deadline: there was a table)
+proof { assert(opt ==> eqs == common_prefix_len + lcs_len(IB)); }   // the walk has used up one side (no deadline: there was a table)
 '''.replace('IB', IB), start=p)
+
 p = call(o, p, 'd.delete(', 'Ev::Delete((old_range.start + common_prefix_len + old_idx) as usize, (old_len - old_idx) as usize, (new_range.start + common_prefix_len + new_idx) as usize)', 'oc = oc + (old_len - old_idx);')
 p = call(o, p, 'd.insert(', 'Ev::Insert((old_range.start + common_prefix_len + old_idx) as usize, (new_range.start + common_prefix_len + new_idx) as usize, (new_len - new_idx) as usize)', 'nc = nc + (new_len - new_idx);')
 p = call(o, p, 'd.equal(', 'Ev::Equal((old_range.start + old_len + common_prefix_len) as usize, (new_range.start + new_len + common_prefix_len) as usize, common_suffix_len)', 'oc = oc + common_suffix_len; nc = nc + common_suffix_len;')
